@@ -953,6 +953,30 @@ def check_c12(prop, tier, replay, selftest):
                               {"property": prop, "component": "feature-compare:" + name, "features": combo_features(c, vl, fe), "record": rec, "mismatch": t},
                               "C12 build %s differs from the default build: %s on %s" % (name, json.dumps(t[4]), rec["id"]))
     shutil.rmtree(tdir, ignore_errors=True)
+    # (3) the CLI built under each feature set: same launches, export / import, directory sessions, judged by Trace_Cli
+    cli_tdir = os.path.join(VERIF, "target-repo-feat")
+    cli_launches = 0
+    for (c, vl, fe) in ([] if selftest else combos):
+        name = combo_name(c, vl, fe)
+        feats = combo_features(c, vl, fe)
+        bindir = build_repo_bins(("adf-bdd-bin",), extra=("--no-default-features",) + (("--features", ",".join(feats)) if feats else ()), target_dir=cli_tdir)
+        outc = os.path.join(WORK, "feat_%s_cli.ndjson" % name)
+        run_harness(default_bin, ["cli", "--tier", "feat", "--out", outc, "--cli", os.path.join(bindir, "adf-bdd"), "--work", WORK])
+        trc = tlc_trace("Trace_Cli", outc, min_per_shard=10)
+        res.add_trace(trc)
+        cli_launches += trc["records"]
+        for gl, t in trc["tuples"]:
+            if gl is None or t[0] != "MISMATCH":
+                continue
+            rec = json.loads(trc["lines"][gl - 1])
+            if t[4] == "exit-nonzero-opchar-label" and known_match("C15", {"label_has_opchar": True, "lib_in": "biodivine|hybrid", "predicate": "exits-successfully"}):
+                continue                      # F9 is a finding of C15 in every build, not a feature difference
+            slim = {k: v for k, v in rec.items() if k not in ("cp",)}
+            res.violation("%s_cli_%s_%s" % (name, rec.get("id"), json.dumps(t[4])[:40]),
+                          {"property": prop, "component": "feature-build-cli:" + name, "features": feats, "record": slim, "mismatch": t},
+                          "C12 CLI built with [%s] violates %s/%s on %s" % (",".join(feats), t[3], json.dumps(t[4]), rec.get("id")))
+    shutil.rmtree(cli_tdir, ignore_errors=True)
+    res.extra["cli_launches_under_feature_builds"] = cli_launches
     res.evaluations = nrec
     res.distinct = seen
     res.extra["feature_builds"] = [combo_name(*c) for c in combos]
